@@ -121,6 +121,38 @@ def render(fbody, gbody) -> str:
     return "\n".join(src) + "\n"
 
 
+# Family D: control-flow SHAPES across the two code objects. Both functions get every shape of the
+# menu below (so that blocks with the same index in f and g are entered differently: fall-through in
+# one, jump target in the other), g is called after and before f's own control structure.
+def _shape(k: int, p: str, r: str) -> list[str]:
+    return [
+        [f"{r} = {p}"],
+        [f"{r} = {p}", f"if {p} > 0:", f"    {r} = {p} * 2"],
+        [f"if {p} > 1:", f"    {r} = 0", "else:", f"    {r} = 5"],
+        [f"{r} = {p}", f"if {p} > 0:", f"    if {p} > 1:", f"        {r} = {p} * 2"],
+        [f"if {p} > 0:", f"    if {p} > 1:", f"        {r} = 1", "    else:", f"        {r} = 2", "else:",
+         f"    {r} = 3"],
+        [f"{r} = {p}", f"if {p} > 0:", f"    {r} = {r} + 1", f"if {p} > 1:", f"    {r} = {r} * 2"],
+        [f"k = 7", f"if k > 5:", f"    {r} = {p} + 1", "else:", f"    {r} = {p} + k"],
+    ][k]
+
+
+N_SHAPES = 7
+
+
+def shape_programs() -> list[str]:
+    out = []
+    for kg in range(N_SHAPES):
+        gsrc = ["def g(v):", "    global G"] + ["    " + ln for ln in _shape(kg, "v", "y")] + ["    return y"]
+        for kf in range(N_SHAPES):
+            after = ["    x = a"] + ["    " + ln for ln in _shape(kf, "x", "y")] + ["    z = g(y)", "    return z"]
+            before = ["    x = a", "    y = g(x)"] + ["    " + ln for ln in _shape(kf, "y", "z")] + ["    return z"]
+            for body in (after, before):
+                out.append("\n".join(["G = 0", "class Box:", "    val = 0", *gsrc, "def f(a):", "    global G",
+                                      *body]) + "\n")
+    return out
+
+
 def programs(tier: str) -> list[tuple[str, str]]:
     """(family, source) for the whole stated space, duplicates removed, fixed order."""
     n_single, cross = BOUNDS[tier]
@@ -141,6 +173,10 @@ def programs(tier: str) -> list[tuple[str, str]]:
         for fb in bodies(nf, call=True):
             for gb in gsmall:
                 add("C", fb, gb)
+    for src in shape_programs():
+        if src not in seen:
+            seen.add(src)
+            out.append(("D", src))
     return out
 
 
@@ -153,7 +189,7 @@ def line_construct(text: str) -> str:
         return "control"
     if t.startswith("return"):
         return "call-return"
-    if "g(x)" in t:
+    if "g(x)" in t or "g(y)" in t:
         return "call-arg"
     if "Box" in t or ".val" in t or t.startswith("val"):
         return "attribute"
@@ -601,6 +637,9 @@ def run(ctx):
                         "family_B": f"g: <= {n_single} menu statements (+return), f fixed 'x = a; return x'",
                         "family_C": "all pairs with (f <= Nf, g <= Ng) menu statements (+return) for (Nf, Ng) in "
                                     + str(cross),
+                        "family_D": f"{N_SHAPES} control-flow shapes (straight, if, if/else, nested if, nested "
+                                    "if/else, two ifs, constant-guarded if/else) for f x the same for g x "
+                                    "{g called after, before f's structure}",
                         "inputs": list(INPUTS), "menu": sorted(ITEMS)})
     ctx.note("programs_total", len(progs))
     ctx.exhaustive = True
